@@ -1,6 +1,7 @@
 import Ysgo.Lemmas.MarkupTail
 import Ysgo.Lemmas.MarkupPropsSim
 import Ysgo.Lemmas.MarkupRepl
+import Ysgo.Lemmas.MarkupErr
 import Ysgo.Props.C15
 /-!
 # C13 — markup parsing recovers the plain text and exactly the enclosed ranges
@@ -15,14 +16,21 @@ error. All theorems hold for every incoming parser state.
   as names, any nesting, overlap and repetition); `TextForAttribute` returns the enclosed text.
 * C13.2 `parse_render_props_partial`: PROVED for the shorthand `[name=value]` and any number of properties whose values
   are integers, booleans, quoted strings or bare words, on the side where the specification prescribes a result.
-  Not proved: decimal values, and the error side (integer beyond `int`, non-boolean `trimwhitespace`).
-* C13.3 `parse_render_replacement` (`nomarkup`, `select`, `plural`, `ordinal`): NOT proved.
+  `parse_render_props` (second part of this file): PROVED with decimal values as well (`decimal_value`: the parser's
+  `strconv.ParseFloat` on `<int>.<digits>` is the specification's nearest double); error side: `parse_render_props_error`.
+* C13.3 `parse_render_replacement` (`nomarkup`, `select`, `plural`, `ordinal`, self-closing or closed by `[/name]` or
+  `[/]`): PROVED for every well-formed chunk list (`MarkupSpec.wellFormed`), together with the arithmetic core
+  (`ordinal_table`, `ordinal_table_go`, `placeholder_identity`, `placeholder_subst`, `processors_meet_spec`).
+* `parse_render_error`, `parse_render_full`: on every well-formed chunk list the parser returns the prescribed result, or
+  an error where the specification prescribes one — C13.1–C13.3 in one statement.
 * C13.4 `character_prefix`: PROVED for lines without markers (`character_prefix`, `character_prefix_exact`); for lines with
-  markers the implicit attribute is part of `expected`, hence of `parse_render_core` / `parse_render_props_partial`.
+  markers the implicit attribute is part of `expected`, hence of `parse_render_core` / `parse_render_props_partial` /
+  `parse_render_full`.
 
-Everything not proved is covered by the executable comparison `expected` ⇄ model ⇄ implementation in the `markup` stream
-(profile `chunks`), where the generated chunk lists contain decimals, out-of-range integers, non-boolean `trimwhitespace`
-and replacement markers with every case.
+Covered only by the executable comparison `expected` ⇄ model ⇄ implementation in the `markup` stream: lines that are not
+renderings of well-formed chunk lists (a lone backslash or `[` inside marker text, raw text that contains a close tag of
+its own marker, Unicode white space inside the close tag of a replacement marker, malformed markers), and — as for every
+property — the agreement of the model with the Go code.
 -/
 namespace Ysgo.Markup
 open Ysgo.Unicode Ysgo.MarkupSpec
@@ -405,14 +413,122 @@ example : (expected exampleRepl).map (fun r => showAttrs (r.attrs.filter (fun a 
 example : expected [.selfClose "select".toList none [("value".toList, .bare "x".toList), ("y".toList, .int 0 1)] []] = none := by
   decide +kernel
 
+/-! ## The error side on every well-formed chunk list -/
+
+/-- `parse_render_error` (C13.1–C13.3, error side): when the specification prescribes an error for a well-formed chunk
+list — a close marker with nothing to close, an integer (part) beyond `int`, a non-boolean `trimwhitespace` where it
+counts, a replacement marker without `value`, without a case for its value, or with a `value` of the wrong type — the
+parser reports an error: it neither panics nor returns a result -/
+theorem parse_render_error (st : ParserState) (cs : List Chunk) (hw : wellFormed cs = true)
+    (he : expected cs = none) : (parseRunes st (render cs)).2 = .err := by
+  simp only [wellFormed, List.all_eq_true] at hw
+  have hfold : cs.foldlM stepChunk {} = none := by
+    cases hf : cs.foldlM stepChunk {} with
+    | none => rfl
+    | some S' => simp [expected, hf, bind, Option.bind, pure] at he
+  have hbad := sim_fold_none_all (render cs).length cs {} {} { rest := render cs, src := 0, pos := 0 } hw (inv_init _) hfold
+    (by simp only []; omega) ((render cs).length + 1) (by simp only []; omega)
+  unfold parseRunes parseCore
+  simp only [bind, P.bind]
+  cases hml : mainLoop ((render cs).length + 1) ((render cs).length + 1) {} { rest := render cs, src := 0, pos := 0 } with
+  | ok st' s' =>
+    simp only [hml, BadEnd] at hbad
+    simp only [finish, hbad, fail]
+  | err _ => rfl
+  | panic _ => simp only [hml, BadEnd] at hbad
+  | oof _ => simp only [hml, BadEnd] at hbad
+
+/-- `parse_render_props_error`: the error side of C13.2 — a special case of `parse_render_error` -/
+theorem parse_render_props_error (st : ParserState) (cs : List Chunk) (hc : ∀ c ∈ cs, isPropsChunk c = true)
+    (he : expected cs = none) : (parseRunes st (render cs)).2 = .err := by
+  apply parse_render_error st cs _ he
+  simp only [wellFormed, List.all_eq_true]
+  intro c h
+  have := hc c h
+  unfold isPropsChunk at this
+  simp only [Bool.and_eq_true] at this
+  exact this.1
+
+/-- **C13 in one statement**: on every well-formed chunk list — the whole grammar of the property: text, escapes, markers
+with properties of every value kind, nesting, overlap, repetition, close-all, replacement markers self-closing or closed
+by name or by `[/]` — and from every incoming parser state, the parser does exactly what the specification prescribes:
+the prescribed result, or an error where an error is prescribed -/
+theorem parse_render_full (st : ParserState) (cs : List Chunk) (hw : wellFormed cs = true) :
+    (parseRunes st (render cs)).2 = (match expected cs with | some r => .ok r | none => .err) := by
+  cases he : expected cs with
+  | some r => exact parse_render_replacement st cs hw r he
+  | none => exact parse_render_error st cs hw he
+
+/-- error cases of every kind are well-formed lists the specification rejects -/
+def exampleErrors : List (List Chunk) :=
+  [ [.opn "a".toList (some (.int 0 (2 ^ 63))) [] [], .text "x".toList],                       -- integer beyond int
+    [.selfClose "a".toList none [("k".toList, .dec 2 (2 ^ 63 + 5) "5".toList)] []],            -- integer part beyond int
+    [.selfClose "a".toList none [("trimwhitespace".toList, .int 0 1)] []],                     -- not a boolean, at line start
+    [.selfClose "plural".toList none [("value".toList, .quoted "x".toList), ("other".toList, .bare "o".toList)] []],
+    [.selfClose "ordinal".toList none [("value".toList, .int 0 2), ("one".toList, .bare "o".toList)] []],  -- no case `two`
+    [.repl "select".toList none [] [] "raw".toList true []],                                   -- no value
+    [.text "x".toList, .close "nomarkup".toList []] ]                                          -- nothing to close
+
+example : ∀ cs ∈ exampleErrors, wellFormed cs = true ∧ expected cs = none := by decide +kernel
+
+/-! ## C13.3, arithmetic core: the case tables and the placeholder rule of processors.go -/
+
+/-- `ordinal_table`: the model of `processOrdinal`'s `switch` is the English ordinal table on the numbers the parser can
+deliver (`parseInteger` yields a natural number): last digit 1 / 2 / 3 gives `one` / `two` / `few` unless the number ends
+in 11 / 12 / 13; everything else is `other` -/
+theorem ordinal_table (n : Nat) :
+    ordinalCase (n : Int) =
+      if n % 10 = 1 ∧ n % 100 ≠ 11 then "one" else if n % 10 = 2 ∧ n % 100 ≠ 12 then "two"
+      else if n % 10 = 3 ∧ n % 100 ≠ 13 then "few" else "other" := ordinalCase_nat n
+
+/-- the same with Go's `%` (truncated remainder), literally the conditions of processors.go:94-100 -/
+theorem ordinal_table_go (n : Nat) :
+    ordinalCase (n : Int) =
+      if (n : Int).tmod 10 = 1 ∧ (n : Int).tmod 100 ≠ 11 then "one"
+      else if (n : Int).tmod 10 = 2 ∧ (n : Int).tmod 100 ≠ 12 then "two"
+      else if (n : Int).tmod 10 = 3 ∧ (n : Int).tmod 100 ≠ 13 then "few" else "other" := ordinalCase_go n
+
+example : [1, 2, 3, 4, 10, 11, 12, 13, 21, 22, 23, 101, 111, 112, 113, 122].map (fun n : Nat => ordinalCase (n : Int)) =
+    ["one", "two", "few", "other", "other", "other", "other", "other", "one", "two", "few", "one", "other", "other",
+     "other", "two"] := by decide
+
+/-- `placeholder_identity`: a replacement text without `%` is returned unchanged -/
+theorem placeholder_identity (r v : String) (h : '%' ∉ r.toList) : replacePlaceholders r v = r :=
+  replacePlaceholders_no_percent r v h
+
+/-- `placeholder_subst`: with no backslash in the replacement text and in the value, every `%` becomes the value and
+nothing else changes -/
+theorem placeholder_subst (r v : String) (hr : '\\' ∉ r.toList) (hv : '\\' ∉ v.toList) :
+    replacePlaceholders r v = String.ofList (r.toList.flatMap fun c => if c = '%' then v.toList else [c]) :=
+  replacePlaceholders_subst r v hr hv
+
+example : '%' ∉ "no placeholder".toList := by decide
+example : '\\' ∉ "% of %".toList ∧ '\\' ∉ "7".toList := by decide
+example : replacePlaceholders "% of %" "7" = "7 of 7" := by decide +kernel
+/-- and `\\%` is a literal `%` -/
+example : replacePlaceholders "100\\% of %" "7" = "100% of 7" := by decide +kernel
+
+/-- `processors_meet_spec`: on every property list the model of the four processors returns the text (or the error)
+`MarkupSpec.replacement` prescribes; `c` is the raw text of an open replacement marker -/
+theorem processors_meet_spec (n : List Char) (hn : isReplName n = true) (ps : List (String × PVal))
+    (c : Option (List Char)) :
+    process (String.ofList n) (ps ++ contentsProp c) = (replacement n ps c).map String.ofList := process_eq n hn ps c
+
+example : isReplName "ordinal".toList = true := by decide
+/-- the decimal of `[a=1.05]` is 1.05 (bits 0x3FF0CCCCCCCCCCCD), the value F17 got wrong -/
+example : nearest 1 "05".toList = ⟨4607407598781385933⟩ := by decide +kernel
+
 #print axioms parse_render_replacement
+#print axioms parse_render_error
+#print axioms parse_render_props_error
+#print axioms parse_render_full
 #print axioms parse_render_replacement_text
 #print axioms parse_render_props
 #print axioms decimal_value
-#print axioms ordinalCase_nat
-#print axioms ordinalCase_go
-#print axioms replacePlaceholders_no_percent
-#print axioms replacePlaceholders_subst
-#print axioms process_eq
+#print axioms ordinal_table
+#print axioms ordinal_table_go
+#print axioms placeholder_identity
+#print axioms placeholder_subst
+#print axioms processors_meet_spec
 
 end Ysgo.Markup
